@@ -148,7 +148,16 @@ EXPORT errno_t _wctomb_s_chk(int *restrict retvalp, char *restrict dest,
         }
     }
 
-    len = *retvalp = wctomb(dest, wc);
+    if (dest && dmax < MB_LEN_MAX) {
+        /* wctomb may store up to MB_CUR_MAX bytes: convert aside, copy what fits */
+        char tmp[MB_LEN_MAX];
+        len = wctomb(tmp, wc);
+        if (len > 0 && (rsize_t)len < dmax)
+            memcpy(dest, tmp, len);
+        *retvalp = len;
+    } else {
+        len = *retvalp = wctomb(dest, wc);
+    }
 
     if (likely(len > 0 && (rsize_t)len < dmax)) {
 #ifdef SAFECLIB_STR_NULL_SLACK
